@@ -658,7 +658,7 @@ func genHTTP(t *rapid.T) httpScenario {
 	}
 	sc.MaxRetries = rapid.IntRange(0, 3).Draw(t, "maxRetries")
 	sc.Backoff = rapid.IntRange(0, 2).Draw(t, "backoff") == 0
-	statuses := []int{200, 201, 204, 400, 404, 429, 500, 501, 502, 503}
+	statuses := []int{200, 201, 204, 400, 404, 429, 500, 501, 502, 503, 511, 520, 599} // "5xx" has no upper end below 600
 	for i, n := 0, rapid.IntRange(1, 5).Draw(t, "nAttempts"); i < n; i++ {
 		a := attemptScript{Status: rapid.SampledFrom(statuses).Draw(t, "status")}
 		a.Mode = rapid.SampledFrom([]string{"plain", "plain", "flush-early", "chunked", "early-response", "close-before", "close-after-headers"}).Draw(t, "mode")
